@@ -557,6 +557,13 @@ def p_list(I, n, pos, kw):
         return Arr(v.axes, v.elem, "list", v.uid)
     if isinstance(v, (Bag, Concat)):
         return v
+    if isinstance(v, ObjV) and (v.cls or v.tag == "iter"):
+        # list(obj): what iterating the object gives (its __iter__ / __getitem__), when that is a concrete sequence
+        sp, iv, elem = I.iteration(v, n)
+        if sp is None:
+            return Seq(list(elem), "list" if as_list else "tuple")
+        if not (isinstance(sp.size, tuple) and any(x[0] == "opq" for x in sym.walk(sp.size))):
+            return I._list_from_items(elem(), sp, iv)
     return I.unknown("list-of-" + type(v).__name__, n, (generic_elem(v),))
 
 
@@ -2126,6 +2133,12 @@ def m_pop(I, n, recv, pos, kw):
             k = int(pos[0].e[1])
         if -len(recv.items) <= k < len(recv.items):
             return recv.items.pop(k)
+        if not getattr(recv, "prefix", None) and I.cfg.flags.get("live_lists"):
+            # a list whose items are all known, popped at a position it does not have: IndexError, on this path for certain
+            from .absint import Raised
+            I.event("raise", n, exc="IndexError", definite=not I.path,
+                    message=f"pop({k if pos else ''}) from a list of {len(recv.items)} item(s)")
+            raise Raised("IndexError")
         return I.unknown("pop-from-empty-list", n)
     return I.unknown("pop-on-" + type(recv).__name__, n)
 
